@@ -51,3 +51,33 @@ package transport
 //@    (old(uf("chunkKeyOf", chunk.ShardID, chunk.ReplicaID, chunk.Index) in c.tracked) && old(c.tracked[uf("chunkKeyOf", chunk.ShardID, chunk.ReplicaID, chunk.Index)]) != nil ==>
 //@       old(c.tracked[uf("chunkKeyOf", chunk.ShardID, chunk.ReplicaID, chunk.Index)]).next == old(c.tracked[uf("chunkKeyOf", chunk.ShardID, chunk.ReplicaID, chunk.Index)].next))
 //@ ensures forall k string :: k != uf("chunkKeyOf", chunk.ShardID, chunk.ReplicaID, chunk.Index) ==> (k in c.tracked) == old(k in c.tracked) && c.tracked[k] == old(c.tracked[k])
+
+// ---------------------------------------------------------------- receiver side: accept, save, finalize, deliver (C15)
+// From the property: the received snapshot is handed to raft only if it was reassembled exactly:
+// every chunk subject to validation passed the validator before it was written, the whole
+// stream validated, and the directory was finalized.
+// (rsm.gLastAddOK / rsm.gStreamValid are set by the validator's AddChunk / Validate)
+//@ ghost var gRecvFinalized bool
+//@ func (c *Chunk) save [C15]
+//@ trusted writes the chunk's bytes into the temporary directory
+//@ requires c.validate && !chunk.HasFileInfo && chunk.ChunkId != 0 ==> rsm.gLastAddOK
+//@ func (c *Chunk) finalize [C15]
+//@ trusted flag file + rename of the temporary directory to its final name
+//@ requires c.validate ==> rsm.gStreamValid
+//@ ghostset gRecvFinalized := result == nil
+//@ func fieldfunc.Chunk.onReceive [C15]
+//@ requires gRecvFinalized
+//@ func fieldfunc.Chunk.confirm [C15]
+//@ requires gRecvFinalized
+//@ func (c *Chunk) nodeRemoved [C15]
+//@ trusted file-system query (directory marked as deleted)
+//@ func (c *Chunk) toMessage [C15]
+//@ trusted builds the InstallSnapshot message from the first chunk and the file list
+//@ func (c *Chunk) reset [C15]
+//@ trusted removes the stream from the tracked table under the lock
+
+//@ func (c *Chunk) addLocked [C15]
+//@ noframe
+//@ nobounds
+//@ requires c.tracked != nil && chunk.ChunkId < MaxUint64 && !gRecvFinalized && !rsm.gStreamValid
+//@ modifies rsm.gLastAddOK, rsm.gStreamValid, gRecvFinalized, held(c.mu), entries(c.tracked), allof(tracked.next), allof(tracked.tick), allof(tracked.files)
